@@ -14,6 +14,7 @@ import (
 type Param struct {
 	Name string
 	S    Sort
+	Obj  bool // declared with sort name "obj": object identity (content map for unstructured objects)
 }
 
 type ModelDecl struct {
@@ -86,6 +87,13 @@ type Contract struct {
 	Panics   []Clause // allowed panic conditions
 	Alias    string
 	Returns  string
+	Ghosts   []GhostSet
+}
+
+type GhostSet struct {
+	Model string
+	Arg   Expr
+	Val   Clause
 }
 
 type Specs struct {
@@ -119,7 +127,7 @@ func (s *Specs) sortByName(n string) (Sort, error) {
 
 var clauseKeywords = map[string]bool{"func": true, "lib": true, "iface": true, "model": true, "ufun": true, "def": true, "axiom": true, "const": true,
 	"requires": true, "ensures": true, "assigns": true, "pure": true, "readonly": true, "inline": true, "loop": true, "sink": true, "at": true,
-	"trusted": true, "alias": true, "returns": true, "also": true, "like": true, "fresh": true, "panics": true, "props": true, "sort": true, "params": true, "constglobal": true}
+	"trusted": true, "alias": true, "returns": true, "also": true, "like": true, "fresh": true, "panics": true, "props": true, "sort": true, "params": true, "constglobal": true, "ghost": true}
 
 // loadSpecFile parses one contract/spec file. Lines may carry a "//@" prefix (Go comment-only contract files).
 func (s *Specs) loadSpecFile(path string) error {
@@ -297,6 +305,29 @@ func (s *Specs) loadSpecFile(path string) error {
 				cur.HasAssigns = cur.HasAssigns || src.HasAssigns
 				cur.Readonly = cur.Readonly || src.Readonly
 				cur.Fresh = append(cur.Fresh, src.Fresh...)
+			case "ghost":
+				// ghost name() := E   |  ghost name(arg) := E   (executed at every return of the function under contract)
+				parts := strings.SplitN(rest, ":=", 2)
+				if len(parts) != 2 {
+					return fmt.Errorf("%s: bad ghost clause", where)
+				}
+				lhs, err := parseExpr(strings.TrimSpace(parts[0]))
+				if err != nil {
+					return fmt.Errorf("%s: %v", where, err)
+				}
+				call, ok := lhs.(*ECall)
+				if !ok || len(call.Args) > 1 {
+					return fmt.Errorf("%s: ghost target must be model() or model(x)", where)
+				}
+				c, err := mkClause(parts[1])
+				if err != nil {
+					return err
+				}
+				g := GhostSet{Model: call.Fn, Val: c}
+				if len(call.Args) == 1 {
+					g.Arg = call.Args[0]
+				}
+				cur.Ghosts = append(cur.Ghosts, g)
 			case "returns":
 				cur.Returns = rest
 			case "alias":
@@ -485,7 +516,7 @@ func (s *Specs) parseSig(src string, withBody bool) (string, []Param, Sort, stri
 		if err != nil {
 			return "", nil, "", "", err
 		}
-		ps = append(ps, Param{f[0], so})
+		ps = append(ps, Param{f[0], so, f[1] == "obj"})
 	}
 	rs := strings.TrimSpace(src[cp+1:])
 	ret, err := s.sortByName(rs)
@@ -527,6 +558,9 @@ func (m *ModelDecl) arraySort() Sort {
 }
 
 func clauseApplies(c Clause, prop string) bool {
+	if true { // all clauses are generated; obligations are attributed to properties when reporting
+		return true
+	}
 	if len(c.Prop) == 0 || prop == "" {
 		return true
 	}
